@@ -6,9 +6,9 @@ CONSTANTS Depth, MaxInst
 VARIABLE hist
 vars == <<heap, objs, next, hist>>
 
-\* T: cells 1..10      G({a}) | 0 ; Vac | 1 ; K(l=[1, 2]) | 0 ; A(M) | [0, 1]  with M = [[{b}, 2]]  (variable M is the same array as the argument's? no: own copy)
-\* P: cells 11..16     Vac | 0 ; H(5) | 1
-InitHeap == [c \in 1..16 |->
+\* T: cells 1..12   target X8_01 (shots=10, flags=[1, 2]) ; G({a}) | 0 ; Vac | 1 ; K(l=[1, 2]) | 0 ; variables M = [[{b}, 2]], v = {b}
+\* P: cells 13..19  Vac | 0 ; H(5) | 1 ; variable N = [[3, 4]]
+InitHeap == [c \in 1..19 |->
   CASE c = 1 -> [k |-> "op", name |-> "G", hasargs |-> TRUE, args |-> 2, kw |-> 3, modes |-> <<0>>]
     [] c = 2 -> [k |-> "list", xs |-> <<SymP("a")>>]
     [] c = 3 -> [k |-> "dict", items |-> <<>>]
@@ -19,15 +19,18 @@ InitHeap == [c \in 1..16 |->
     [] c = 8 -> [k |-> "list", xs |-> <<Num(1), Num(2)>>]
     [] c = 9 -> [k |-> "dict", items |-> <<[key |-> "M", v |-> Ref(10)], [key |-> "v", v |-> SymP("b")]>>]      \* variables of T
     [] c = 10 -> [k |-> "arr", rows |-> << <<SymP("b"), Num(2)>> >>]
-    [] c = 11 -> [k |-> "op", name |-> "Vac", hasargs |-> FALSE, args |-> 0, kw |-> 0, modes |-> <<0>>]
-    [] c = 12 -> [k |-> "op", name |-> "H", hasargs |-> TRUE, args |-> 13, kw |-> 14, modes |-> <<1>>]
-    [] c = 13 -> [k |-> "list", xs |-> <<Num(5)>>]
-    [] c = 14 -> [k |-> "dict", items |-> <<>>]
-    [] c = 15 -> [k |-> "dict", items |-> <<[key |-> "N", v |-> Ref(16)]>>]                                        \* variables of P
-    [] c = 16 -> [k |-> "arr", rows |-> << <<Num(3), Num(4)>> >>]]
-InitObjs == [n \in {"T", "P"} |-> IF n = "T" THEN [kind |-> "template", lo |-> 1, hi |-> 10, ops |-> <<1, 4, 5>>, vars |-> 9, params |-> {"a", "b"}]
-                                             ELSE [kind |-> "program", lo |-> 11, hi |-> 16, ops |-> <<11, 12>>, vars |-> 15, params |-> {}]]
-Init == heap = InitHeap /\ objs = InitObjs /\ next = 17 /\ hist = <<>>
+    [] c = 11 -> [k |-> "dict", items |-> <<[key |-> "shots", v |-> Num(10)], [key |-> "flags", v |-> Ref(12)]>>]  \* target options of T
+    [] c = 12 -> [k |-> "list", xs |-> <<Num(1), Num(2)>>]
+    [] c = 13 -> [k |-> "op", name |-> "Vac", hasargs |-> FALSE, args |-> 0, kw |-> 0, modes |-> <<0>>]
+    [] c = 14 -> [k |-> "op", name |-> "H", hasargs |-> TRUE, args |-> 15, kw |-> 16, modes |-> <<1>>]
+    [] c = 15 -> [k |-> "list", xs |-> <<Num(5)>>]
+    [] c = 16 -> [k |-> "dict", items |-> <<>>]
+    [] c = 17 -> [k |-> "dict", items |-> <<[key |-> "N", v |-> Ref(18)]>>]                                        \* variables of P
+    [] c = 18 -> [k |-> "arr", rows |-> << <<Num(3), Num(4)>> >>]
+    [] c = 19 -> [k |-> "dict", items |-> <<>>]]                                                                     \* target options of P
+InitObjs == [n \in {"T", "P"} |-> IF n = "T" THEN [kind |-> "template", lo |-> 1, hi |-> 12, ops |-> <<1, 4, 5>>, vars |-> 9, opts |-> 11, params |-> {"a", "b"}]
+                                             ELSE [kind |-> "program", lo |-> 13, hi |-> 19, ops |-> <<13, 14>>, vars |-> 17, opts |-> 19, params |-> {}]]
+Init == heap = InitHeap /\ objs = InitObjs /\ next = 20 /\ hist = <<>>
 InstNames == {"I1", "I2", "I3"}
 Envs == {[p \in {"a", "b"} |-> IF p = "a" THEN 3 ELSE 8], [p \in {"a", "b"} |-> IF p = "a" THEN -1 ELSE 4]}
 NInst == Cardinality(DOMAIN objs \cap InstNames)
@@ -40,7 +43,7 @@ Next == Len(hist) < Depth /\
   \/ \E p \in DOMAIN objs : Match("T", p) /\ Log([act |-> "match", t |-> "T", p |-> p])
   \/ \E env \in Envs : NInst < MaxInst /\ LET new == IF NInst = 0 THEN "I1" ELSE IF NInst = 1 THEN "I2" ELSE "I3"
                                           IN Call("T", env, new) /\ Log([act |-> "call", t |-> "T", env |-> env, new |-> new])
-  \/ \E o \in (DOMAIN objs) \cap InstNames, k \in {"append_arg", "set_kw", "array_elem", "set_var", "rename_op"}, i \in 1..3 :
+  \/ \E o \in (DOMAIN objs) \cap InstNames, k \in {"append_arg", "set_kw", "array_elem", "set_var", "rename_op", "set_option", "append_option_list"}, i \in 1..3 :
          Mutate(o, k, i) /\ Log([act |-> "mutate", o |-> o, kind |-> k, i |-> i])
 \* ---- the property
 Pure == [][\A o \in DOMAIN objs : (hist' # hist /\ ReadOnly(hist'[Len(hist')])) => Content(heap', objs'[o]) = Content(heap, objs[o])]_vars
